@@ -961,6 +961,10 @@ def rand_xf(rng, t_ifaces=40, near_axis=0.4):
         x["scale"] = float(10 ** rng.uniform(-3, 3))
     if rng.random() < 0.3:
         x["shift_rel"] = [float(v) for v in rng.uniform(-3, 3, 2)]
+    elif rng.random() < 0.2:
+        # far from the origin (10..500 tissue sizes): the circle fit works on absolute coordinates
+        r, a = float(10 ** rng.uniform(1, math.log10(500))), float(rng.uniform(0, 2 * math.pi))
+        x["shift_rel"] = [r * math.cos(a), r * math.sin(a)]
     return x or None
 
 
